@@ -28,23 +28,24 @@ BuildTree(i, st) ==
   IF i > Len(Tree0) THEN st
   ELSE LET e == Tree0[i]
            ex == IF e.par = 0 THEN e.dl ELSE Min2(st.exp[e.par], e.dl)
-       IN BuildTree(i + 1, [st EXCEPT !.live[e.id] = "live", !.exp[e.id] = ex, !.par[e.id] = e.par, !.dl0[e.id] = e.dl,
+       IN BuildTree(i + 1, [st EXCEPT !.live[e.id] = "live", !.exp[e.id] = ex, !.notified[e.id] = IF e.dl <= 0 THEN 1 ELSE 0, !.par[e.id] = e.par, !.dl0[e.id] = e.dl,
                                     !.lpar[e.id] = e.par,
                                     !.kids = IF e.par = 0 THEN @ ELSE [@ EXCEPT ![e.par] = Append(@, e.id)]])
-T0 == BuildTree(1, [live |-> [n \in Notes |-> "none"], exp |-> [n \in Notes |-> NONE], par |-> [n \in Notes |-> 0],
+T0 == BuildTree(1, [live |-> [n \in Notes |-> "none"], notified |-> [n \in Notes |-> 0], exp |-> [n \in Notes |-> NONE], par |-> [n \in Notes |-> 0],
                     dl0 |-> [n \in Notes |-> NONE], lpar |-> [n \in Notes |-> 0], kids |-> [n \in Notes |-> <<>>]])
 
 (* --algorithm note {
   variables
     live = T0.live,                           \* "none" / "live" / "freed"
-    notified = [n \in Notes |-> 0],           \* n->notified
+    notified = T0.notified,                   \* n->notified
     exp = T0.exp,                             \* n->expiry_time
     par = T0.par,                             \* n->parent (0 = NULL)
     kids = T0.kids,                           \* n->children (first..last)
     wts = [n \in Notes |-> <<>>],             \* n->waiters: threads whose wait_n record is queued
     disc = [n \in Notes |-> 0],               \* n->disconnecting
     lk = [n \in Notes |-> 0],                 \* holder of n->note_mu (0 = free)
-    nww = [t \in Threads |-> 0], sem = [t \in Threads |-> 0],
+    nww = [t \in Threads |-> [n \in Notes |-> 0]],   \* waiting flag of t's nsync_wait_n record for note n
+    sem = [t \in Threads |-> 0],
     now = 0,
     ip = [t \in Threads |-> 1],
     ret = [t \in Threads |-> -1],             \* result of the last client operation
@@ -74,7 +75,7 @@ T0 == BuildTree(1, [live |-> [n \in Notes |-> "none"], exp |-> [n \in Notes |-> 
    nc_2_st:  notified[cn] := 1;                                              \* note.c:89 ATM_STORE_REL
    nc_w_l:   if (wts[cn] = <<>>) { klist := kids[cn]; i := 1; goto nc_k_l; }
              else { w := Head(wts[cn]); wts[cn] := Tail(wts[cn]); };         \* note.c:91-92
-   nc_3_st:  nww[w] := 0;                                                    \* note.c:93 ATM_STORE_REL
+   nc_3_st:  nww[w][cn] := 0;                                                    \* note.c:93 ATM_STORE_REL
    nc_4_v:   sem[w] := sem[w] + 1; goto nc_w_l;                              \* note.c:94
    nc_k_l:   if (i > Len(klist)) { wfor[self] := cn; goto nc_7_r; };
    nc_5_lk:  await lk[klist[i]] = 0; lk[klist[i]] := self;                   \* note.c:99 nsync_mu_lock (&child->note_mu)
@@ -183,31 +184,42 @@ T0 == BuildTree(1, [live |-> [n \in Notes |-> "none"], exp |-> [n \in Notes |-> 
              return;
   }
 
-  \* ------------------------------------------------------------------ nsync_note_wait = nsync_wait_n (NULL, .., dl, 1, {note})
-  procedure nwait(an, adl)
-    variables rt = 0, enq = FALSE, wq = FALSE;
+  \* ------------------------------------------------------------------ nsync_wait_n (NULL, .., adl, Len(objs), objs) on notes (wait.c:28-100
+  \* with note_ready_time / note_enqueue / note_dequeue, note.c:262-294); nsync_note_wait (n, dl) is the call with one object
+  procedure nwaitn(objs, adl, single)
+    variables k = 1, rt = 0, cnt = 0, rdy = 0, enq = FALSE, wq = FALSE;
   {
-   nw_1_l:   call ndeadline(an);                                             \* wait.c:35 note_ready_time (v, NULL)
-   nw_2_l:   if (dres[self] = ZERO) { ret[self] := 1; return; };             \* ready at once: nsync_note_wait returns 1
-   wn_1_st:  nww[self] := 0;                                                 \* wait.c:54
-   ne_1_lk:  await lk[an] = 0; lk[an] := self; uaf := uaf \/ Touch(an);      \* note.c:267 note_enqueue
-   ne_2_ld:  enq := NTime(an) > ZERO;                                        \* note.c:268 NOTIFIED_TIME
-             if (NTime(an) > ZERO) { wts[an] := Append(wts[an], self); };
-   ne_3_st:  nww[self] := IF enq THEN 1 ELSE 0;                              \* note.c:271 / 274
-   ne_4_ul:  lk[an] := 0;
-   nw_3_l:   call ndeadline(an);                                             \* wait.c:70 note_ready_time (v, &nw)
-   nw_4_l:   rt := Min2(dres[self], adl);
-             if (dres[self] = ZERO) { goto nq_1_l; };
+   ws_1_l:   if (k > Len(objs)) { k := 1; goto we_1_l; } else { call ndeadline(objs[k]); };    \* wait.c:34-38 note_ready_time (v, NULL)
+   ws_2_l:   if (dres[self] = ZERO) { ret[self] := IF single THEN 1 ELSE k - 1; return; }      \* an object is ready at once
+             else { k := k + 1; goto ws_1_l; };
+   we_1_l:   if (k > Len(objs)) { goto wl_0_l; };                             \* wait.c:50-57 enqueue loop
+   wn_1_st:  nww[self][objs[k]] := 0;                                        \* wait.c:54 ATM_STORE
+   ne_1_lk:  await lk[objs[k]] = 0; lk[objs[k]] := self; uaf := uaf \/ Touch(objs[k]);   \* note.c:267 note_enqueue
+   ne_2_ld:  enq := NTime(objs[k]) > ZERO;                                   \* note.c:268 NOTIFIED_TIME
+             if (NTime(objs[k]) > ZERO) { wts[objs[k]] := Append(wts[objs[k]], self); };
+   ne_3_st:  nww[self][objs[k]] := IF enq THEN 1 ELSE 0;                     \* note.c:271 / 274
+   ne_4_ul:  lk[objs[k]] := 0; cnt := k;
+             if (enq) { k := k + 1; goto we_1_l; }
+             else if (k = Len(objs)) { goto wl_0_l; }                         \* wait.c:59: i == count although the last enqueue found it ready
+             else { goto wd_0_l; };
+   wl_0_l:   k := 1; rt := adl;                                               \* wait.c:65-77
+   wl_1_l:   if (k > Len(objs)) { goto wl_3_l; } else { call ndeadline(objs[k]); };   \* note_ready_time (v, &nw[j])
+   wl_2_l:   rt := Min2(rt, dres[self]); k := k + 1; goto wl_1_l;
+   wl_3_l:   if (rt = ZERO) { goto wd_0_l; };
    wn_7_pd:  await sem[self] > 0 \/ (rt < NONE /\ now >= rt);                \* wait.c:76 nsync_mu_semaphore_p_with_deadline
-             if (sem[self] > 0) { sem[self] := sem[self] - 1; goto nw_3_l; };
-   nq_1_l:   call ndeadline(an);                                             \* note.c:285 note_dequeue
-   nq_2_lk:  await lk[an] = 0; lk[an] := self; uaf := uaf \/ Touch(an);      \* note.c:286
-   nq_3_ld:  wq := NTime(an) > ZERO;                                         \* note.c:287
-             if (NTime(an) > ZERO) { wts[an] := Without(wts[an], self); };
+             if (sem[self] > 0) { sem[self] := sem[self] - 1; goto wl_0_l; };
+   wd_0_l:   k := 1; rdy := 0;                                                \* wait.c:80-89 dequeue loop over the objects registered
+   wd_1_l:   if (k > cnt) { goto wd_9_l; } else { call ndeadline(objs[k]); }; \* note.c:285 note_dequeue
+   nq_2_lk:  await lk[objs[k]] = 0; lk[objs[k]] := self; uaf := uaf \/ Touch(objs[k]);   \* note.c:286
+   nq_3_ld:  wq := NTime(objs[k]) > ZERO;                                    \* note.c:287
+             if (NTime(objs[k]) > ZERO) { wts[objs[k]] := Without(wts[objs[k]], self); };
    nq_3_l:   if (~wq) { goto nq_5_ul; };
-   nq_4_st:  nww[self] := 0;                                                 \* note.c:289
-   nq_5_ul:  lk[an] := 0;
-             ret[self] := IF wq THEN 0 ELSE 1; return;                       \* nsync_note_wait: 1 iff notified
+   nq_4_st:  nww[self][objs[k]] := 0;                                        \* note.c:289
+   nq_5_ul:  lk[objs[k]] := 0;
+             if (~wq /\ rdy = 0) { rdy := k; };
+             k := k + 1; goto wd_1_l;
+   wd_9_l:   ret[self] := IF single THEN (IF rdy = 0 THEN 0 ELSE 1) ELSE (IF rdy = 0 THEN Len(objs) ELSE rdy - 1);
+             return;
   }
 
   procedure npoll(pn)
@@ -223,7 +235,8 @@ T0 == BuildTree(1, [live |-> [n \in Notes |-> "none"], exp |-> [n \in Notes |-> 
          else if (CurOp(self).op = "poll") { ip[self] := ip[self] + 1; call npoll(CurOp(self).a); }
          else if (CurOp(self).op = "new") { ip[self] := ip[self] + 1; call nnew(CurOp(self).a, CurOp(self).b, CurOp(self).dl, CurOp(self).x = 1); }
          else if (CurOp(self).op = "free") { ip[self] := ip[self] + 1; call nfree(CurOp(self).a); }
-         else if (CurOp(self).op = "wait") { ip[self] := ip[self] + 1; call nwait(CurOp(self).a, CurOp(self).dl); }
+         else if (CurOp(self).op = "wait") { ip[self] := ip[self] + 1; call nwaitn(<<CurOp(self).a>>, CurOp(self).dl, TRUE); }
+         else if (CurOp(self).op = "waitn") { ip[self] := ip[self] + 1; call nwaitn(CurOp(self).objs, CurOp(self).dl, FALSE); }
          else { ip[self] := ip[self] + 1; };
        };
   }
@@ -240,25 +253,26 @@ NTime(n) == IF notified[n] # 0 THEN ZERO ELSE exp[n]
 Touch(x) == x # 0 /\ live[x] = "freed"
 
 VARIABLES cn, cp, i, klist, w, tn, p, dn, nt, xn, wn, wp, wdl, fail, fn, fp, 
-          fi, fk, an, adl, rt, enq, wq, pn
+          fi, fk, objs, adl, single, k, rt, cnt, rdy, enq, wq, pn
 
 vars == << pc, live, notified, exp, par, kids, wts, disc, lk, nww, sem, now, 
            ip, ret, dres, called, dl0, lpar, wfor, freeing, uaf, taint4, 
            taint5, stack, cn, cp, i, klist, w, tn, p, dn, nt, xn, wn, wp, wdl, 
-           fail, fn, fp, fi, fk, an, adl, rt, enq, wq, pn >>
+           fail, fn, fp, fi, fk, objs, adl, single, k, rt, cnt, rdy, enq, wq, 
+           pn >>
 
 ProcSet == (Threads)
 
 Init == (* Global variables *)
         /\ live = T0.live
-        /\ notified = [n \in Notes |-> 0]
+        /\ notified = T0.notified
         /\ exp = T0.exp
         /\ par = T0.par
         /\ kids = T0.kids
         /\ wts = [n \in Notes |-> <<>>]
         /\ disc = [n \in Notes |-> 0]
         /\ lk = [n \in Notes |-> 0]
-        /\ nww = [t \in Threads |-> 0]
+        /\ nww = [t \in Threads |-> [n \in Notes |-> 0]]
         /\ sem = [t \in Threads |-> 0]
         /\ now = 0
         /\ ip = [t \in Threads |-> 1]
@@ -296,10 +310,14 @@ Init == (* Global variables *)
         /\ fp = [ self \in ProcSet |-> 0]
         /\ fi = [ self \in ProcSet |-> 1]
         /\ fk = [ self \in ProcSet |-> <<>>]
-        (* Procedure nwait *)
-        /\ an = [ self \in ProcSet |-> defaultInitValue]
+        (* Procedure nwaitn *)
+        /\ objs = [ self \in ProcSet |-> defaultInitValue]
         /\ adl = [ self \in ProcSet |-> defaultInitValue]
+        /\ single = [ self \in ProcSet |-> defaultInitValue]
+        /\ k = [ self \in ProcSet |-> 1]
         /\ rt = [ self \in ProcSet |-> 0]
+        /\ cnt = [ self \in ProcSet |-> 0]
+        /\ rdy = [ self \in ProcSet |-> 0]
         /\ enq = [ self \in ProcSet |-> FALSE]
         /\ wq = [ self \in ProcSet |-> FALSE]
         (* Procedure npoll *)
@@ -323,7 +341,8 @@ nc_1_ld(self) == /\ pc[self] = "nc_1_ld"
                                  nww, sem, now, ip, ret, dres, called, dl0, 
                                  lpar, wfor, freeing, taint4, taint5, tn, p, 
                                  dn, nt, xn, wn, wp, wdl, fail, fn, fp, fi, fk, 
-                                 an, adl, rt, enq, wq, pn >>
+                                 objs, adl, single, k, rt, cnt, rdy, enq, wq, 
+                                 pn >>
 
 nc_2_st(self) == /\ pc[self] = "nc_2_st"
                  /\ notified' = [notified EXCEPT ![cn[self]] = 1]
@@ -332,8 +351,8 @@ nc_2_st(self) == /\ pc[self] = "nc_2_st"
                                  now, ip, ret, dres, called, dl0, lpar, wfor, 
                                  freeing, uaf, taint4, taint5, stack, cn, cp, 
                                  i, klist, w, tn, p, dn, nt, xn, wn, wp, wdl, 
-                                 fail, fn, fp, fi, fk, an, adl, rt, enq, wq, 
-                                 pn >>
+                                 fail, fn, fp, fi, fk, objs, adl, single, k, 
+                                 rt, cnt, rdy, enq, wq, pn >>
 
 nc_w_l(self) == /\ pc[self] = "nc_w_l"
                 /\ IF wts[cn[self]] = <<>>
@@ -349,17 +368,18 @@ nc_w_l(self) == /\ pc[self] = "nc_w_l"
                                 sem, now, ip, ret, dres, called, dl0, lpar, 
                                 wfor, freeing, uaf, taint4, taint5, stack, cn, 
                                 cp, tn, p, dn, nt, xn, wn, wp, wdl, fail, fn, 
-                                fp, fi, fk, an, adl, rt, enq, wq, pn >>
+                                fp, fi, fk, objs, adl, single, k, rt, cnt, rdy, 
+                                enq, wq, pn >>
 
 nc_3_st(self) == /\ pc[self] = "nc_3_st"
-                 /\ nww' = [nww EXCEPT ![w[self]] = 0]
+                 /\ nww' = [nww EXCEPT ![w[self]][cn[self]] = 0]
                  /\ pc' = [pc EXCEPT ![self] = "nc_4_v"]
                  /\ UNCHANGED << live, notified, exp, par, kids, wts, disc, lk, 
                                  sem, now, ip, ret, dres, called, dl0, lpar, 
                                  wfor, freeing, uaf, taint4, taint5, stack, cn, 
                                  cp, i, klist, w, tn, p, dn, nt, xn, wn, wp, 
-                                 wdl, fail, fn, fp, fi, fk, an, adl, rt, enq, 
-                                 wq, pn >>
+                                 wdl, fail, fn, fp, fi, fk, objs, adl, single, 
+                                 k, rt, cnt, rdy, enq, wq, pn >>
 
 nc_4_v(self) == /\ pc[self] = "nc_4_v"
                 /\ sem' = [sem EXCEPT ![w[self]] = sem[w[self]] + 1]
@@ -368,8 +388,8 @@ nc_4_v(self) == /\ pc[self] = "nc_4_v"
                                 nww, now, ip, ret, dres, called, dl0, lpar, 
                                 wfor, freeing, uaf, taint4, taint5, stack, cn, 
                                 cp, i, klist, w, tn, p, dn, nt, xn, wn, wp, 
-                                wdl, fail, fn, fp, fi, fk, an, adl, rt, enq, 
-                                wq, pn >>
+                                wdl, fail, fn, fp, fi, fk, objs, adl, single, 
+                                k, rt, cnt, rdy, enq, wq, pn >>
 
 nc_k_l(self) == /\ pc[self] = "nc_k_l"
                 /\ IF i[self] > Len(klist[self])
@@ -381,8 +401,8 @@ nc_k_l(self) == /\ pc[self] = "nc_k_l"
                                 nww, sem, now, ip, ret, dres, called, dl0, 
                                 lpar, freeing, uaf, taint4, taint5, stack, cn, 
                                 cp, i, klist, w, tn, p, dn, nt, xn, wn, wp, 
-                                wdl, fail, fn, fp, fi, fk, an, adl, rt, enq, 
-                                wq, pn >>
+                                wdl, fail, fn, fp, fi, fk, objs, adl, single, 
+                                k, rt, cnt, rdy, enq, wq, pn >>
 
 nc_5_lk(self) == /\ pc[self] = "nc_5_lk"
                  /\ lk[klist[self][i[self]]] = 0
@@ -393,8 +413,8 @@ nc_5_lk(self) == /\ pc[self] = "nc_5_lk"
                                  nww, sem, now, ip, ret, dres, called, dl0, 
                                  lpar, wfor, freeing, taint4, taint5, stack, 
                                  cn, cp, i, klist, w, tn, p, dn, nt, xn, wn, 
-                                 wp, wdl, fail, fn, fp, fi, fk, an, adl, rt, 
-                                 enq, wq, pn >>
+                                 wp, wdl, fail, fn, fp, fi, fk, objs, adl, 
+                                 single, k, rt, cnt, rdy, enq, wq, pn >>
 
 nc_5_l(self) == /\ pc[self] = "nc_5_l"
                 /\ IF disc[klist[self][i[self]]] = 0
@@ -418,7 +438,8 @@ nc_5_l(self) == /\ pc[self] = "nc_5_l"
                                 nww, sem, now, ip, ret, dres, called, dl0, 
                                 lpar, wfor, freeing, uaf, taint4, taint5, tn, 
                                 p, dn, nt, xn, wn, wp, wdl, fail, fn, fp, fi, 
-                                fk, an, adl, rt, enq, wq, pn >>
+                                fk, objs, adl, single, k, rt, cnt, rdy, enq, 
+                                wq, pn >>
 
 nc_6_ul(self) == /\ pc[self] = "nc_6_ul"
                  /\ lk' = [lk EXCEPT ![klist[self][i[self]]] = 0]
@@ -428,8 +449,8 @@ nc_6_ul(self) == /\ pc[self] = "nc_6_ul"
                                  nww, sem, now, ip, ret, dres, called, dl0, 
                                  lpar, wfor, freeing, uaf, taint4, taint5, 
                                  stack, cn, cp, klist, w, tn, p, dn, nt, xn, 
-                                 wn, wp, wdl, fail, fn, fp, fi, fk, an, adl, 
-                                 rt, enq, wq, pn >>
+                                 wn, wp, wdl, fail, fn, fp, fi, fk, objs, adl, 
+                                 single, k, rt, cnt, rdy, enq, wq, pn >>
 
 nc_7_r(self) == /\ pc[self] = "nc_7_r"
                 /\ IF kids[cn[self]] # <<>>
@@ -441,8 +462,8 @@ nc_7_r(self) == /\ pc[self] = "nc_7_r"
                                 sem, now, ip, ret, dres, called, dl0, lpar, 
                                 wfor, freeing, uaf, taint4, taint5, stack, cn, 
                                 cp, i, klist, w, tn, p, dn, nt, xn, wn, wp, 
-                                wdl, fail, fn, fp, fi, fk, an, adl, rt, enq, 
-                                wq, pn >>
+                                wdl, fail, fn, fp, fi, fk, objs, adl, single, 
+                                k, rt, cnt, rdy, enq, wq, pn >>
 
 nc_8_lk(self) == /\ pc[self] = "nc_8_lk"
                  /\ lk[cn[self]] = 0 /\ kids[cn[self]] = <<>>
@@ -452,8 +473,8 @@ nc_8_lk(self) == /\ pc[self] = "nc_8_lk"
                                  nww, sem, now, ip, ret, dres, called, dl0, 
                                  lpar, wfor, freeing, uaf, taint4, taint5, 
                                  stack, cn, cp, i, klist, w, tn, p, dn, nt, xn, 
-                                 wn, wp, wdl, fail, fn, fp, fi, fk, an, adl, 
-                                 rt, enq, wq, pn >>
+                                 wn, wp, wdl, fail, fn, fp, fi, fk, objs, adl, 
+                                 single, k, rt, cnt, rdy, enq, wq, pn >>
 
 nc_9_l(self) == /\ pc[self] = "nc_9_l"
                 /\ IF cp[self] # 0
@@ -473,7 +494,8 @@ nc_9_l(self) == /\ pc[self] = "nc_9_l"
                 /\ UNCHANGED << live, notified, exp, wts, disc, lk, nww, sem, 
                                 now, ip, ret, dres, called, dl0, lpar, freeing, 
                                 taint4, taint5, tn, p, dn, nt, xn, wn, wp, wdl, 
-                                fail, fn, fp, fi, fk, an, adl, rt, enq, wq, pn >>
+                                fail, fn, fp, fi, fk, objs, adl, single, k, rt, 
+                                cnt, rdy, enq, wq, pn >>
 
 notify_child(self) == nc_1_ld(self) \/ nc_2_st(self) \/ nc_w_l(self)
                          \/ nc_3_st(self) \/ nc_4_v(self) \/ nc_k_l(self)
@@ -489,8 +511,8 @@ nt_1_lk(self) == /\ pc[self] = "nt_1_lk"
                                  nww, sem, now, ip, ret, dres, called, dl0, 
                                  lpar, wfor, freeing, taint4, taint5, stack, 
                                  cn, cp, i, klist, w, tn, p, dn, nt, xn, wn, 
-                                 wp, wdl, fail, fn, fp, fi, fk, an, adl, rt, 
-                                 enq, wq, pn >>
+                                 wp, wdl, fail, fn, fp, fi, fk, objs, adl, 
+                                 single, k, rt, cnt, rdy, enq, wq, pn >>
 
 nt_2_ld(self) == /\ pc[self] = "nt_2_ld"
                  /\ IF NTime(tn[self]) = ZERO
@@ -503,8 +525,8 @@ nt_2_ld(self) == /\ pc[self] = "nt_2_ld"
                                  sem, now, ip, ret, dres, called, dl0, lpar, 
                                  wfor, freeing, uaf, taint4, taint5, stack, cn, 
                                  cp, i, klist, w, tn, dn, nt, xn, wn, wp, wdl, 
-                                 fail, fn, fp, fi, fk, an, adl, rt, enq, wq, 
-                                 pn >>
+                                 fail, fn, fp, fi, fk, objs, adl, single, k, 
+                                 rt, cnt, rdy, enq, wq, pn >>
 
 nt_2_l(self) == /\ pc[self] = "nt_2_l"
                 /\ IF p[self] = 0
@@ -514,8 +536,8 @@ nt_2_l(self) == /\ pc[self] = "nt_2_l"
                                 nww, sem, now, ip, ret, dres, called, dl0, 
                                 lpar, wfor, freeing, uaf, taint4, taint5, 
                                 stack, cn, cp, i, klist, w, tn, p, dn, nt, xn, 
-                                wn, wp, wdl, fail, fn, fp, fi, fk, an, adl, rt, 
-                                enq, wq, pn >>
+                                wn, wp, wdl, fail, fn, fp, fi, fk, objs, adl, 
+                                single, k, rt, cnt, rdy, enq, wq, pn >>
 
 nt_3_r(self) == /\ pc[self] = "nt_3_r"
                 /\ uaf' = (uaf \/ Touch(p[self]))
@@ -528,7 +550,8 @@ nt_3_r(self) == /\ pc[self] = "nt_3_r"
                                 sem, now, ip, ret, dres, called, dl0, lpar, 
                                 wfor, freeing, taint4, taint5, stack, cn, cp, 
                                 i, klist, w, tn, p, dn, nt, xn, wn, wp, wdl, 
-                                fail, fn, fp, fi, fk, an, adl, rt, enq, wq, pn >>
+                                fail, fn, fp, fi, fk, objs, adl, single, k, rt, 
+                                cnt, rdy, enq, wq, pn >>
 
 nt_4_ul(self) == /\ pc[self] = "nt_4_ul"
                  /\ lk' = [lk EXCEPT ![tn[self]] = 0]
@@ -537,8 +560,8 @@ nt_4_ul(self) == /\ pc[self] = "nt_4_ul"
                                  nww, sem, now, ip, ret, dres, called, dl0, 
                                  lpar, wfor, freeing, uaf, taint4, taint5, 
                                  stack, cn, cp, i, klist, w, tn, p, dn, nt, xn, 
-                                 wn, wp, wdl, fail, fn, fp, fi, fk, an, adl, 
-                                 rt, enq, wq, pn >>
+                                 wn, wp, wdl, fail, fn, fp, fi, fk, objs, adl, 
+                                 single, k, rt, cnt, rdy, enq, wq, pn >>
 
 nt_5_lk(self) == /\ pc[self] = "nt_5_lk"
                  /\ lk[p[self]] = 0
@@ -550,8 +573,8 @@ nt_5_lk(self) == /\ pc[self] = "nt_5_lk"
                                  nww, sem, now, ip, ret, dres, called, dl0, 
                                  lpar, wfor, freeing, taint4, stack, cn, cp, i, 
                                  klist, w, tn, p, dn, nt, xn, wn, wp, wdl, 
-                                 fail, fn, fp, fi, fk, an, adl, rt, enq, wq, 
-                                 pn >>
+                                 fail, fn, fp, fi, fk, objs, adl, single, k, 
+                                 rt, cnt, rdy, enq, wq, pn >>
 
 nt_6_lk(self) == /\ pc[self] = "nt_6_lk"
                  /\ lk[tn[self]] = 0
@@ -561,8 +584,8 @@ nt_6_lk(self) == /\ pc[self] = "nt_6_lk"
                                  nww, sem, now, ip, ret, dres, called, dl0, 
                                  lpar, wfor, freeing, uaf, taint4, taint5, 
                                  stack, cn, cp, i, klist, w, tn, p, dn, nt, xn, 
-                                 wn, wp, wdl, fail, fn, fp, fi, fk, an, adl, 
-                                 rt, enq, wq, pn >>
+                                 wn, wp, wdl, fail, fn, fp, fi, fk, objs, adl, 
+                                 single, k, rt, cnt, rdy, enq, wq, pn >>
 
 nt_7_l(self) == /\ pc[self] = "nt_7_l"
                 /\ /\ cn' = [cn EXCEPT ![self] = tn[self]]
@@ -583,7 +606,8 @@ nt_7_l(self) == /\ pc[self] = "nt_7_l"
                                 nww, sem, now, ip, ret, dres, called, dl0, 
                                 lpar, wfor, freeing, uaf, taint4, taint5, tn, 
                                 p, dn, nt, xn, wn, wp, wdl, fail, fn, fp, fi, 
-                                fk, an, adl, rt, enq, wq, pn >>
+                                fk, objs, adl, single, k, rt, cnt, rdy, enq, 
+                                wq, pn >>
 
 nt_7b_l(self) == /\ pc[self] = "nt_7b_l"
                  /\ IF p[self] = 0
@@ -593,8 +617,8 @@ nt_7b_l(self) == /\ pc[self] = "nt_7b_l"
                                  nww, sem, now, ip, ret, dres, called, dl0, 
                                  lpar, wfor, freeing, uaf, taint4, taint5, 
                                  stack, cn, cp, i, klist, w, tn, p, dn, nt, xn, 
-                                 wn, wp, wdl, fail, fn, fp, fi, fk, an, adl, 
-                                 rt, enq, wq, pn >>
+                                 wn, wp, wdl, fail, fn, fp, fi, fk, objs, adl, 
+                                 single, k, rt, cnt, rdy, enq, wq, pn >>
 
 nt_7_ul(self) == /\ pc[self] = "nt_7_ul"
                  /\ lk' = [lk EXCEPT ![p[self]] = 0]
@@ -604,8 +628,8 @@ nt_7_ul(self) == /\ pc[self] = "nt_7_ul"
                                  nww, sem, now, ip, ret, dres, called, dl0, 
                                  lpar, wfor, freeing, taint4, taint5, stack, 
                                  cn, cp, i, klist, w, tn, p, dn, nt, xn, wn, 
-                                 wp, wdl, fail, fn, fp, fi, fk, an, adl, rt, 
-                                 enq, wq, pn >>
+                                 wp, wdl, fail, fn, fp, fi, fk, objs, adl, 
+                                 single, k, rt, cnt, rdy, enq, wq, pn >>
 
 nt_7c_l(self) == /\ pc[self] = "nt_7c_l"
                  /\ disc' = [disc EXCEPT ![tn[self]] = disc[tn[self]] - 1]
@@ -614,8 +638,8 @@ nt_7c_l(self) == /\ pc[self] = "nt_7c_l"
                                  sem, now, ip, ret, dres, called, dl0, lpar, 
                                  wfor, freeing, uaf, taint4, taint5, stack, cn, 
                                  cp, i, klist, w, tn, p, dn, nt, xn, wn, wp, 
-                                 wdl, fail, fn, fp, fi, fk, an, adl, rt, enq, 
-                                 wq, pn >>
+                                 wdl, fail, fn, fp, fi, fk, objs, adl, single, 
+                                 k, rt, cnt, rdy, enq, wq, pn >>
 
 nt_8_ul(self) == /\ pc[self] = "nt_8_ul"
                  /\ lk' = [lk EXCEPT ![tn[self]] = 0]
@@ -627,8 +651,8 @@ nt_8_ul(self) == /\ pc[self] = "nt_8_ul"
                                  nww, sem, now, ip, ret, dres, called, dl0, 
                                  lpar, wfor, freeing, uaf, taint4, taint5, cn, 
                                  cp, i, klist, w, dn, nt, xn, wn, wp, wdl, 
-                                 fail, fn, fp, fi, fk, an, adl, rt, enq, wq, 
-                                 pn >>
+                                 fail, fn, fp, fi, fk, objs, adl, single, k, 
+                                 rt, cnt, rdy, enq, wq, pn >>
 
 notify(self) == nt_1_lk(self) \/ nt_2_ld(self) \/ nt_2_l(self)
                    \/ nt_3_r(self) \/ nt_4_ul(self) \/ nt_5_lk(self)
@@ -649,7 +673,8 @@ nd_1_ld(self) == /\ pc[self] = "nd_1_ld"
                                  nww, sem, now, ip, ret, called, dl0, lpar, 
                                  wfor, freeing, taint4, taint5, cn, cp, i, 
                                  klist, w, tn, p, xn, wn, wp, wdl, fail, fn, 
-                                 fp, fi, fk, an, adl, rt, enq, wq, pn >>
+                                 fp, fi, fk, objs, adl, single, k, rt, cnt, 
+                                 rdy, enq, wq, pn >>
 
 nd_2_lk(self) == /\ pc[self] = "nd_2_lk"
                  /\ lk[dn[self]] = 0
@@ -659,8 +684,8 @@ nd_2_lk(self) == /\ pc[self] = "nd_2_lk"
                                  nww, sem, now, ip, ret, dres, called, dl0, 
                                  lpar, wfor, freeing, uaf, taint4, taint5, 
                                  stack, cn, cp, i, klist, w, tn, p, dn, nt, xn, 
-                                 wn, wp, wdl, fail, fn, fp, fi, fk, an, adl, 
-                                 rt, enq, wq, pn >>
+                                 wn, wp, wdl, fail, fn, fp, fi, fk, objs, adl, 
+                                 single, k, rt, cnt, rdy, enq, wq, pn >>
 
 nd_3_ld(self) == /\ pc[self] = "nd_3_ld"
                  /\ nt' = [nt EXCEPT ![self] = NTime(dn[self])]
@@ -669,8 +694,8 @@ nd_3_ld(self) == /\ pc[self] = "nd_3_ld"
                                  nww, sem, now, ip, ret, dres, called, dl0, 
                                  lpar, wfor, freeing, uaf, taint4, taint5, 
                                  stack, cn, cp, i, klist, w, tn, p, dn, xn, wn, 
-                                 wp, wdl, fail, fn, fp, fi, fk, an, adl, rt, 
-                                 enq, wq, pn >>
+                                 wp, wdl, fail, fn, fp, fi, fk, objs, adl, 
+                                 single, k, rt, cnt, rdy, enq, wq, pn >>
 
 nd_4_ul(self) == /\ pc[self] = "nd_4_ul"
                  /\ lk' = [lk EXCEPT ![dn[self]] = 0]
@@ -694,7 +719,8 @@ nd_4_ul(self) == /\ pc[self] = "nd_4_ul"
                                  nww, sem, now, ip, ret, called, dl0, lpar, 
                                  wfor, freeing, uaf, taint4, taint5, cn, cp, i, 
                                  klist, w, xn, wn, wp, wdl, fail, fn, fp, fi, 
-                                 fk, an, adl, rt, enq, wq, pn >>
+                                 fk, objs, adl, single, k, rt, cnt, rdy, enq, 
+                                 wq, pn >>
 
 nd_5_l(self) == /\ pc[self] = "nd_5_l"
                 /\ dres' = [dres EXCEPT ![self] = ZERO]
@@ -706,7 +732,8 @@ nd_5_l(self) == /\ pc[self] = "nd_5_l"
                                 nww, sem, now, ip, ret, called, dl0, lpar, 
                                 wfor, freeing, uaf, taint4, taint5, cn, cp, i, 
                                 klist, w, tn, p, xn, wn, wp, wdl, fail, fn, fp, 
-                                fi, fk, an, adl, rt, enq, wq, pn >>
+                                fi, fk, objs, adl, single, k, rt, cnt, rdy, 
+                                enq, wq, pn >>
 
 ndeadline(self) == nd_1_ld(self) \/ nd_2_lk(self) \/ nd_3_ld(self)
                       \/ nd_4_ul(self) \/ nd_5_l(self)
@@ -725,7 +752,8 @@ nx_0_l(self) == /\ pc[self] = "nx_0_l"
                                 nww, sem, now, ip, ret, dres, dl0, lpar, wfor, 
                                 freeing, uaf, taint4, taint5, cn, cp, i, klist, 
                                 w, tn, p, xn, wn, wp, wdl, fail, fn, fp, fi, 
-                                fk, an, adl, rt, enq, wq, pn >>
+                                fk, objs, adl, single, k, rt, cnt, rdy, enq, 
+                                wq, pn >>
 
 nx_1_l(self) == /\ pc[self] = "nx_1_l"
                 /\ IF dres[self] > ZERO
@@ -743,7 +771,8 @@ nx_1_l(self) == /\ pc[self] = "nx_1_l"
                                 nww, sem, now, ip, ret, dres, called, dl0, 
                                 lpar, wfor, freeing, uaf, taint4, taint5, cn, 
                                 cp, i, klist, w, dn, nt, xn, wn, wp, wdl, fail, 
-                                fn, fp, fi, fk, an, adl, rt, enq, wq, pn >>
+                                fn, fp, fi, fk, objs, adl, single, k, rt, cnt, 
+                                rdy, enq, wq, pn >>
 
 nx_2_l(self) == /\ pc[self] = "nx_2_l"
                 /\ ret' = [ret EXCEPT ![self] = notified[xn[self]]]
@@ -754,7 +783,8 @@ nx_2_l(self) == /\ pc[self] = "nx_2_l"
                                 nww, sem, now, ip, dres, called, dl0, lpar, 
                                 wfor, freeing, uaf, taint4, taint5, cn, cp, i, 
                                 klist, w, tn, p, dn, nt, wn, wp, wdl, fail, fn, 
-                                fp, fi, fk, an, adl, rt, enq, wq, pn >>
+                                fp, fi, fk, objs, adl, single, k, rt, cnt, rdy, 
+                                enq, wq, pn >>
 
 nnotify(self) == nx_0_l(self) \/ nx_1_l(self) \/ nx_2_l(self)
 
@@ -777,8 +807,8 @@ nn_0_l(self) == /\ pc[self] = "nn_0_l"
                 /\ UNCHANGED << notified, par, kids, wts, disc, lk, nww, sem, 
                                 now, ip, dres, called, wfor, freeing, uaf, 
                                 taint4, taint5, cn, cp, i, klist, w, tn, p, dn, 
-                                nt, xn, fn, fp, fi, fk, an, adl, rt, enq, wq, 
-                                pn >>
+                                nt, xn, fn, fp, fi, fk, objs, adl, single, k, 
+                                rt, cnt, rdy, enq, wq, pn >>
 
 nn_1_l(self) == /\ pc[self] = "nn_1_l"
                 /\ /\ dn' = [dn EXCEPT ![self] = wn[self]]
@@ -793,7 +823,8 @@ nn_1_l(self) == /\ pc[self] = "nn_1_l"
                                 nww, sem, now, ip, ret, dres, called, dl0, 
                                 lpar, wfor, freeing, uaf, taint4, taint5, cn, 
                                 cp, i, klist, w, tn, p, xn, wn, wp, wdl, fail, 
-                                fn, fp, fi, fk, an, adl, rt, enq, wq, pn >>
+                                fn, fp, fi, fk, objs, adl, single, k, rt, cnt, 
+                                rdy, enq, wq, pn >>
 
 nn_2_l(self) == /\ pc[self] = "nn_2_l"
                 /\ IF dres[self] = ZERO \/ wp[self] = 0
@@ -810,8 +841,8 @@ nn_2_l(self) == /\ pc[self] = "nn_2_l"
                 /\ UNCHANGED << notified, exp, par, kids, wts, disc, lk, nww, 
                                 sem, now, ip, dres, called, dl0, lpar, wfor, 
                                 freeing, uaf, taint4, taint5, cn, cp, i, klist, 
-                                w, tn, p, dn, nt, xn, fn, fp, fi, fk, an, adl, 
-                                rt, enq, wq, pn >>
+                                w, tn, p, dn, nt, xn, fn, fp, fi, fk, objs, 
+                                adl, single, k, rt, cnt, rdy, enq, wq, pn >>
 
 nn_3_lk(self) == /\ pc[self] = "nn_3_lk"
                  /\ lk[wp[self]] = 0
@@ -822,8 +853,8 @@ nn_3_lk(self) == /\ pc[self] = "nn_3_lk"
                                  nww, sem, now, ip, ret, dres, called, dl0, 
                                  lpar, wfor, freeing, taint4, taint5, stack, 
                                  cn, cp, i, klist, w, tn, p, dn, nt, xn, wn, 
-                                 wp, wdl, fail, fn, fp, fi, fk, an, adl, rt, 
-                                 enq, wq, pn >>
+                                 wp, wdl, fail, fn, fp, fi, fk, objs, adl, 
+                                 single, k, rt, cnt, rdy, enq, wq, pn >>
 
 nn_4_ld(self) == /\ pc[self] = "nn_4_ld"
                  /\ IF NTime(wp[self]) < wdl[self]
@@ -840,8 +871,8 @@ nn_4_ld(self) == /\ pc[self] = "nn_4_ld"
                                  ip, ret, dres, called, dl0, lpar, wfor, 
                                  freeing, uaf, taint4, taint5, stack, cn, cp, 
                                  i, klist, w, tn, p, dn, nt, xn, wn, wp, wdl, 
-                                 fail, fn, fp, fi, fk, an, adl, rt, enq, wq, 
-                                 pn >>
+                                 fail, fn, fp, fi, fk, objs, adl, single, k, 
+                                 rt, cnt, rdy, enq, wq, pn >>
 
 nn_5_ul(self) == /\ pc[self] = "nn_5_ul"
                  /\ lk' = [lk EXCEPT ![wp[self]] = 0]
@@ -857,7 +888,8 @@ nn_5_ul(self) == /\ pc[self] = "nn_5_ul"
                                  now, ip, dres, called, dl0, lpar, wfor, 
                                  freeing, uaf, taint4, taint5, cn, cp, i, 
                                  klist, w, tn, p, dn, nt, xn, fn, fp, fi, fk, 
-                                 an, adl, rt, enq, wq, pn >>
+                                 objs, adl, single, k, rt, cnt, rdy, enq, wq, 
+                                 pn >>
 
 nnew(self) == nn_0_l(self) \/ nn_1_l(self) \/ nn_2_l(self) \/ nn_3_lk(self)
                  \/ nn_4_ld(self) \/ nn_5_ul(self)
@@ -873,7 +905,8 @@ nf_1_lk(self) == /\ pc[self] = "nf_1_lk"
                                  now, ip, ret, dres, called, dl0, lpar, wfor, 
                                  uaf, taint4, taint5, stack, cn, cp, i, klist, 
                                  w, tn, p, dn, nt, xn, wn, wp, wdl, fail, fn, 
-                                 fi, fk, an, adl, rt, enq, wq, pn >>
+                                 fi, fk, objs, adl, single, k, rt, cnt, rdy, 
+                                 enq, wq, pn >>
 
 nf_1_l(self) == /\ pc[self] = "nf_1_l"
                 /\ IF fp[self] = 0
@@ -883,8 +916,8 @@ nf_1_l(self) == /\ pc[self] = "nf_1_l"
                                 nww, sem, now, ip, ret, dres, called, dl0, 
                                 lpar, wfor, freeing, uaf, taint4, taint5, 
                                 stack, cn, cp, i, klist, w, tn, p, dn, nt, xn, 
-                                wn, wp, wdl, fail, fn, fp, fi, fk, an, adl, rt, 
-                                enq, wq, pn >>
+                                wn, wp, wdl, fail, fn, fp, fi, fk, objs, adl, 
+                                single, k, rt, cnt, rdy, enq, wq, pn >>
 
 nf_2_r(self) == /\ pc[self] = "nf_2_r"
                 /\ IF lk[fp[self]] = 0
@@ -896,8 +929,8 @@ nf_2_r(self) == /\ pc[self] = "nf_2_r"
                                 sem, now, ip, ret, dres, called, dl0, lpar, 
                                 wfor, freeing, uaf, taint4, taint5, stack, cn, 
                                 cp, i, klist, w, tn, p, dn, nt, xn, wn, wp, 
-                                wdl, fail, fn, fp, fi, fk, an, adl, rt, enq, 
-                                wq, pn >>
+                                wdl, fail, fn, fp, fi, fk, objs, adl, single, 
+                                k, rt, cnt, rdy, enq, wq, pn >>
 
 nf_3_ul(self) == /\ pc[self] = "nf_3_ul"
                  /\ lk' = [lk EXCEPT ![fn[self]] = 0]
@@ -906,8 +939,8 @@ nf_3_ul(self) == /\ pc[self] = "nf_3_ul"
                                  nww, sem, now, ip, ret, dres, called, dl0, 
                                  lpar, wfor, freeing, uaf, taint4, taint5, 
                                  stack, cn, cp, i, klist, w, tn, p, dn, nt, xn, 
-                                 wn, wp, wdl, fail, fn, fp, fi, fk, an, adl, 
-                                 rt, enq, wq, pn >>
+                                 wn, wp, wdl, fail, fn, fp, fi, fk, objs, adl, 
+                                 single, k, rt, cnt, rdy, enq, wq, pn >>
 
 nf_4_lk(self) == /\ pc[self] = "nf_4_lk"
                  /\ lk[fp[self]] = 0
@@ -918,8 +951,8 @@ nf_4_lk(self) == /\ pc[self] = "nf_4_lk"
                                  nww, sem, now, ip, ret, dres, called, dl0, 
                                  lpar, wfor, freeing, taint4, taint5, stack, 
                                  cn, cp, i, klist, w, tn, p, dn, nt, xn, wn, 
-                                 wp, wdl, fail, fn, fp, fi, fk, an, adl, rt, 
-                                 enq, wq, pn >>
+                                 wp, wdl, fail, fn, fp, fi, fk, objs, adl, 
+                                 single, k, rt, cnt, rdy, enq, wq, pn >>
 
 nf_4b_lk(self) == /\ pc[self] = "nf_4b_lk"
                   /\ lk[fn[self]] = 0
@@ -929,8 +962,8 @@ nf_4b_lk(self) == /\ pc[self] = "nf_4b_lk"
                                   nww, sem, now, ip, ret, dres, called, dl0, 
                                   lpar, wfor, freeing, uaf, taint4, taint5, 
                                   stack, cn, cp, i, klist, w, tn, p, dn, nt, 
-                                  xn, wn, wp, wdl, fail, fn, fp, fi, fk, an, 
-                                  adl, rt, enq, wq, pn >>
+                                  xn, wn, wp, wdl, fail, fn, fp, fi, fk, objs, 
+                                  adl, single, k, rt, cnt, rdy, enq, wq, pn >>
 
 nf_5_l(self) == /\ pc[self] = "nf_5_l"
                 /\ fk' = [fk EXCEPT ![self] = kids[fn[self]]]
@@ -940,8 +973,8 @@ nf_5_l(self) == /\ pc[self] = "nf_5_l"
                                 nww, sem, now, ip, ret, dres, called, dl0, 
                                 lpar, wfor, freeing, uaf, taint4, taint5, 
                                 stack, cn, cp, i, klist, w, tn, p, dn, nt, xn, 
-                                wn, wp, wdl, fail, fn, fp, an, adl, rt, enq, 
-                                wq, pn >>
+                                wn, wp, wdl, fail, fn, fp, objs, adl, single, 
+                                k, rt, cnt, rdy, enq, wq, pn >>
 
 nf_k_l(self) == /\ pc[self] = "nf_k_l"
                 /\ IF fi[self] > Len(fk[self])
@@ -951,8 +984,8 @@ nf_k_l(self) == /\ pc[self] = "nf_k_l"
                                 nww, sem, now, ip, ret, dres, called, dl0, 
                                 lpar, wfor, freeing, uaf, taint4, taint5, 
                                 stack, cn, cp, i, klist, w, tn, p, dn, nt, xn, 
-                                wn, wp, wdl, fail, fn, fp, fi, fk, an, adl, rt, 
-                                enq, wq, pn >>
+                                wn, wp, wdl, fail, fn, fp, fi, fk, objs, adl, 
+                                single, k, rt, cnt, rdy, enq, wq, pn >>
 
 nf_6_lk(self) == /\ pc[self] = "nf_6_lk"
                  /\ lk[fk[self][fi[self]]] = 0
@@ -962,8 +995,8 @@ nf_6_lk(self) == /\ pc[self] = "nf_6_lk"
                                  nww, sem, now, ip, ret, dres, called, dl0, 
                                  lpar, wfor, freeing, uaf, taint4, taint5, 
                                  stack, cn, cp, i, klist, w, tn, p, dn, nt, xn, 
-                                 wn, wp, wdl, fail, fn, fp, fi, fk, an, adl, 
-                                 rt, enq, wq, pn >>
+                                 wn, wp, wdl, fail, fn, fp, fi, fk, objs, adl, 
+                                 single, k, rt, cnt, rdy, enq, wq, pn >>
 
 nf_6_l(self) == /\ pc[self] = "nf_6_l"
                 /\ IF disc[fk[self][fi[self]]] = 0
@@ -978,7 +1011,8 @@ nf_6_l(self) == /\ pc[self] = "nf_6_l"
                                 now, ip, ret, dres, called, dl0, lpar, wfor, 
                                 freeing, uaf, taint5, stack, cn, cp, i, klist, 
                                 w, tn, p, dn, nt, xn, wn, wp, wdl, fail, fn, 
-                                fp, fi, fk, an, adl, rt, enq, wq, pn >>
+                                fp, fi, fk, objs, adl, single, k, rt, cnt, rdy, 
+                                enq, wq, pn >>
 
 nf_7_ul(self) == /\ pc[self] = "nf_7_ul"
                  /\ lk' = [lk EXCEPT ![fk[self][fi[self]]] = 0]
@@ -988,8 +1022,8 @@ nf_7_ul(self) == /\ pc[self] = "nf_7_ul"
                                  nww, sem, now, ip, ret, dres, called, dl0, 
                                  lpar, wfor, freeing, uaf, taint4, taint5, 
                                  stack, cn, cp, i, klist, w, tn, p, dn, nt, xn, 
-                                 wn, wp, wdl, fail, fn, fp, fk, an, adl, rt, 
-                                 enq, wq, pn >>
+                                 wn, wp, wdl, fail, fn, fp, fk, objs, adl, 
+                                 single, k, rt, cnt, rdy, enq, wq, pn >>
 
 nf_8_r(self) == /\ pc[self] = "nf_8_r"
                 /\ IF kids[fn[self]] # <<>>
@@ -1001,8 +1035,8 @@ nf_8_r(self) == /\ pc[self] = "nf_8_r"
                                 sem, now, ip, ret, dres, called, dl0, lpar, 
                                 wfor, freeing, uaf, taint4, taint5, stack, cn, 
                                 cp, i, klist, w, tn, p, dn, nt, xn, wn, wp, 
-                                wdl, fail, fn, fp, fi, fk, an, adl, rt, enq, 
-                                wq, pn >>
+                                wdl, fail, fn, fp, fi, fk, objs, adl, single, 
+                                k, rt, cnt, rdy, enq, wq, pn >>
 
 nf_9_lk(self) == /\ pc[self] = "nf_9_lk"
                  /\ lk[fn[self]] = 0 /\ kids[fn[self]] = <<>>
@@ -1012,8 +1046,8 @@ nf_9_lk(self) == /\ pc[self] = "nf_9_lk"
                                  nww, sem, now, ip, ret, dres, called, dl0, 
                                  lpar, wfor, freeing, uaf, taint4, taint5, 
                                  stack, cn, cp, i, klist, w, tn, p, dn, nt, xn, 
-                                 wn, wp, wdl, fail, fn, fp, fi, fk, an, adl, 
-                                 rt, enq, wq, pn >>
+                                 wn, wp, wdl, fail, fn, fp, fi, fk, objs, adl, 
+                                 single, k, rt, cnt, rdy, enq, wq, pn >>
 
 nf_10_l(self) == /\ pc[self] = "nf_10_l"
                  /\ IF fp[self] = 0
@@ -1026,8 +1060,8 @@ nf_10_l(self) == /\ pc[self] = "nf_10_l"
                                  now, ip, ret, dres, called, dl0, lpar, wfor, 
                                  freeing, uaf, taint4, taint5, stack, cn, cp, 
                                  i, klist, w, tn, p, dn, nt, xn, wn, wp, wdl, 
-                                 fail, fn, fp, fi, fk, an, adl, rt, enq, wq, 
-                                 pn >>
+                                 fail, fn, fp, fi, fk, objs, adl, single, k, 
+                                 rt, cnt, rdy, enq, wq, pn >>
 
 nf_11_ul(self) == /\ pc[self] = "nf_11_ul"
                   /\ lk' = [lk EXCEPT ![fp[self]] = 0]
@@ -1036,8 +1070,8 @@ nf_11_ul(self) == /\ pc[self] = "nf_11_ul"
                                   nww, sem, now, ip, ret, dres, called, dl0, 
                                   lpar, wfor, freeing, uaf, taint4, taint5, 
                                   stack, cn, cp, i, klist, w, tn, p, dn, nt, 
-                                  xn, wn, wp, wdl, fail, fn, fp, fi, fk, an, 
-                                  adl, rt, enq, wq, pn >>
+                                  xn, wn, wp, wdl, fail, fn, fp, fi, fk, objs, 
+                                  adl, single, k, rt, cnt, rdy, enq, wq, pn >>
 
 nf_12_l(self) == /\ pc[self] = "nf_12_l"
                  /\ disc' = [disc EXCEPT ![fn[self]] = disc[fn[self]] - 1]
@@ -1046,8 +1080,8 @@ nf_12_l(self) == /\ pc[self] = "nf_12_l"
                                  sem, now, ip, ret, dres, called, dl0, lpar, 
                                  wfor, freeing, uaf, taint4, taint5, stack, cn, 
                                  cp, i, klist, w, tn, p, dn, nt, xn, wn, wp, 
-                                 wdl, fail, fn, fp, fi, fk, an, adl, rt, enq, 
-                                 wq, pn >>
+                                 wdl, fail, fn, fp, fi, fk, objs, adl, single, 
+                                 k, rt, cnt, rdy, enq, wq, pn >>
 
 nf_13_ul(self) == /\ pc[self] = "nf_13_ul"
                   /\ lk' = [lk EXCEPT ![fn[self]] = 0]
@@ -1064,7 +1098,8 @@ nf_13_ul(self) == /\ pc[self] = "nf_13_ul"
                                   sem, now, ip, dres, called, dl0, wfor, 
                                   freeing, uaf, taint4, taint5, cn, cp, i, 
                                   klist, w, tn, p, dn, nt, xn, wn, wp, wdl, 
-                                  fail, an, adl, rt, enq, wq, pn >>
+                                  fail, objs, adl, single, k, rt, cnt, rdy, 
+                                  enq, wq, pn >>
 
 nfree(self) == nf_1_lk(self) \/ nf_1_l(self) \/ nf_2_r(self)
                   \/ nf_3_ul(self) \/ nf_4_lk(self) \/ nf_4b_lk(self)
@@ -1073,65 +1108,88 @@ nfree(self) == nf_1_lk(self) \/ nf_1_l(self) \/ nf_2_r(self)
                   \/ nf_9_lk(self) \/ nf_10_l(self) \/ nf_11_ul(self)
                   \/ nf_12_l(self) \/ nf_13_ul(self)
 
-nw_1_l(self) == /\ pc[self] = "nw_1_l"
-                /\ /\ dn' = [dn EXCEPT ![self] = an[self]]
-                   /\ stack' = [stack EXCEPT ![self] = << [ procedure |->  "ndeadline",
-                                                            pc        |->  "nw_2_l",
-                                                            nt        |->  nt[self],
-                                                            dn        |->  dn[self] ] >>
-                                                        \o stack[self]]
-                /\ nt' = [nt EXCEPT ![self] = 0]
-                /\ pc' = [pc EXCEPT ![self] = "nd_1_ld"]
+ws_1_l(self) == /\ pc[self] = "ws_1_l"
+                /\ IF k[self] > Len(objs[self])
+                      THEN /\ k' = [k EXCEPT ![self] = 1]
+                           /\ pc' = [pc EXCEPT ![self] = "we_1_l"]
+                           /\ UNCHANGED << stack, dn, nt >>
+                      ELSE /\ /\ dn' = [dn EXCEPT ![self] = objs[self][k[self]]]
+                              /\ stack' = [stack EXCEPT ![self] = << [ procedure |->  "ndeadline",
+                                                                       pc        |->  "ws_2_l",
+                                                                       nt        |->  nt[self],
+                                                                       dn        |->  dn[self] ] >>
+                                                                   \o stack[self]]
+                           /\ nt' = [nt EXCEPT ![self] = 0]
+                           /\ pc' = [pc EXCEPT ![self] = "nd_1_ld"]
+                           /\ k' = k
                 /\ UNCHANGED << live, notified, exp, par, kids, wts, disc, lk, 
                                 nww, sem, now, ip, ret, dres, called, dl0, 
                                 lpar, wfor, freeing, uaf, taint4, taint5, cn, 
                                 cp, i, klist, w, tn, p, xn, wn, wp, wdl, fail, 
-                                fn, fp, fi, fk, an, adl, rt, enq, wq, pn >>
+                                fn, fp, fi, fk, objs, adl, single, rt, cnt, 
+                                rdy, enq, wq, pn >>
 
-nw_2_l(self) == /\ pc[self] = "nw_2_l"
+ws_2_l(self) == /\ pc[self] = "ws_2_l"
                 /\ IF dres[self] = ZERO
-                      THEN /\ ret' = [ret EXCEPT ![self] = 1]
+                      THEN /\ ret' = [ret EXCEPT ![self] = IF single[self] THEN 1 ELSE k[self] - 1]
                            /\ pc' = [pc EXCEPT ![self] = Head(stack[self]).pc]
+                           /\ k' = [k EXCEPT ![self] = Head(stack[self]).k]
                            /\ rt' = [rt EXCEPT ![self] = Head(stack[self]).rt]
+                           /\ cnt' = [cnt EXCEPT ![self] = Head(stack[self]).cnt]
+                           /\ rdy' = [rdy EXCEPT ![self] = Head(stack[self]).rdy]
                            /\ enq' = [enq EXCEPT ![self] = Head(stack[self]).enq]
                            /\ wq' = [wq EXCEPT ![self] = Head(stack[self]).wq]
-                           /\ an' = [an EXCEPT ![self] = Head(stack[self]).an]
+                           /\ objs' = [objs EXCEPT ![self] = Head(stack[self]).objs]
                            /\ adl' = [adl EXCEPT ![self] = Head(stack[self]).adl]
+                           /\ single' = [single EXCEPT ![self] = Head(stack[self]).single]
                            /\ stack' = [stack EXCEPT ![self] = Tail(stack[self])]
-                      ELSE /\ pc' = [pc EXCEPT ![self] = "wn_1_st"]
-                           /\ UNCHANGED << ret, stack, an, adl, rt, enq, wq >>
+                      ELSE /\ k' = [k EXCEPT ![self] = k[self] + 1]
+                           /\ pc' = [pc EXCEPT ![self] = "ws_1_l"]
+                           /\ UNCHANGED << ret, stack, objs, adl, single, rt, 
+                                           cnt, rdy, enq, wq >>
                 /\ UNCHANGED << live, notified, exp, par, kids, wts, disc, lk, 
                                 nww, sem, now, ip, dres, called, dl0, lpar, 
                                 wfor, freeing, uaf, taint4, taint5, cn, cp, i, 
                                 klist, w, tn, p, dn, nt, xn, wn, wp, wdl, fail, 
                                 fn, fp, fi, fk, pn >>
 
+we_1_l(self) == /\ pc[self] = "we_1_l"
+                /\ IF k[self] > Len(objs[self])
+                      THEN /\ pc' = [pc EXCEPT ![self] = "wl_0_l"]
+                      ELSE /\ pc' = [pc EXCEPT ![self] = "wn_1_st"]
+                /\ UNCHANGED << live, notified, exp, par, kids, wts, disc, lk, 
+                                nww, sem, now, ip, ret, dres, called, dl0, 
+                                lpar, wfor, freeing, uaf, taint4, taint5, 
+                                stack, cn, cp, i, klist, w, tn, p, dn, nt, xn, 
+                                wn, wp, wdl, fail, fn, fp, fi, fk, objs, adl, 
+                                single, k, rt, cnt, rdy, enq, wq, pn >>
+
 wn_1_st(self) == /\ pc[self] = "wn_1_st"
-                 /\ nww' = [nww EXCEPT ![self] = 0]
+                 /\ nww' = [nww EXCEPT ![self][objs[self][k[self]]] = 0]
                  /\ pc' = [pc EXCEPT ![self] = "ne_1_lk"]
                  /\ UNCHANGED << live, notified, exp, par, kids, wts, disc, lk, 
                                  sem, now, ip, ret, dres, called, dl0, lpar, 
                                  wfor, freeing, uaf, taint4, taint5, stack, cn, 
                                  cp, i, klist, w, tn, p, dn, nt, xn, wn, wp, 
-                                 wdl, fail, fn, fp, fi, fk, an, adl, rt, enq, 
-                                 wq, pn >>
+                                 wdl, fail, fn, fp, fi, fk, objs, adl, single, 
+                                 k, rt, cnt, rdy, enq, wq, pn >>
 
 ne_1_lk(self) == /\ pc[self] = "ne_1_lk"
-                 /\ lk[an[self]] = 0
-                 /\ lk' = [lk EXCEPT ![an[self]] = self]
-                 /\ uaf' = (uaf \/ Touch(an[self]))
+                 /\ lk[objs[self][k[self]]] = 0
+                 /\ lk' = [lk EXCEPT ![objs[self][k[self]]] = self]
+                 /\ uaf' = (uaf \/ Touch(objs[self][k[self]]))
                  /\ pc' = [pc EXCEPT ![self] = "ne_2_ld"]
                  /\ UNCHANGED << live, notified, exp, par, kids, wts, disc, 
                                  nww, sem, now, ip, ret, dres, called, dl0, 
                                  lpar, wfor, freeing, taint4, taint5, stack, 
                                  cn, cp, i, klist, w, tn, p, dn, nt, xn, wn, 
-                                 wp, wdl, fail, fn, fp, fi, fk, an, adl, rt, 
-                                 enq, wq, pn >>
+                                 wp, wdl, fail, fn, fp, fi, fk, objs, adl, 
+                                 single, k, rt, cnt, rdy, enq, wq, pn >>
 
 ne_2_ld(self) == /\ pc[self] = "ne_2_ld"
-                 /\ enq' = [enq EXCEPT ![self] = NTime(an[self]) > ZERO]
-                 /\ IF NTime(an[self]) > ZERO
-                       THEN /\ wts' = [wts EXCEPT ![an[self]] = Append(wts[an[self]], self)]
+                 /\ enq' = [enq EXCEPT ![self] = NTime(objs[self][k[self]]) > ZERO]
+                 /\ IF NTime(objs[self][k[self]]) > ZERO
+                       THEN /\ wts' = [wts EXCEPT ![objs[self][k[self]]] = Append(wts[objs[self][k[self]]], self)]
                        ELSE /\ TRUE
                             /\ wts' = wts
                  /\ pc' = [pc EXCEPT ![self] = "ne_3_st"]
@@ -1139,101 +1197,148 @@ ne_2_ld(self) == /\ pc[self] = "ne_2_ld"
                                  sem, now, ip, ret, dres, called, dl0, lpar, 
                                  wfor, freeing, uaf, taint4, taint5, stack, cn, 
                                  cp, i, klist, w, tn, p, dn, nt, xn, wn, wp, 
-                                 wdl, fail, fn, fp, fi, fk, an, adl, rt, wq, 
-                                 pn >>
+                                 wdl, fail, fn, fp, fi, fk, objs, adl, single, 
+                                 k, rt, cnt, rdy, wq, pn >>
 
 ne_3_st(self) == /\ pc[self] = "ne_3_st"
-                 /\ nww' = [nww EXCEPT ![self] = IF enq[self] THEN 1 ELSE 0]
+                 /\ nww' = [nww EXCEPT ![self][objs[self][k[self]]] = IF enq[self] THEN 1 ELSE 0]
                  /\ pc' = [pc EXCEPT ![self] = "ne_4_ul"]
                  /\ UNCHANGED << live, notified, exp, par, kids, wts, disc, lk, 
                                  sem, now, ip, ret, dres, called, dl0, lpar, 
                                  wfor, freeing, uaf, taint4, taint5, stack, cn, 
                                  cp, i, klist, w, tn, p, dn, nt, xn, wn, wp, 
-                                 wdl, fail, fn, fp, fi, fk, an, adl, rt, enq, 
-                                 wq, pn >>
+                                 wdl, fail, fn, fp, fi, fk, objs, adl, single, 
+                                 k, rt, cnt, rdy, enq, wq, pn >>
 
 ne_4_ul(self) == /\ pc[self] = "ne_4_ul"
-                 /\ lk' = [lk EXCEPT ![an[self]] = 0]
-                 /\ pc' = [pc EXCEPT ![self] = "nw_3_l"]
+                 /\ lk' = [lk EXCEPT ![objs[self][k[self]]] = 0]
+                 /\ cnt' = [cnt EXCEPT ![self] = k[self]]
+                 /\ IF enq[self]
+                       THEN /\ k' = [k EXCEPT ![self] = k[self] + 1]
+                            /\ pc' = [pc EXCEPT ![self] = "we_1_l"]
+                       ELSE /\ IF k[self] = Len(objs[self])
+                                  THEN /\ pc' = [pc EXCEPT ![self] = "wl_0_l"]
+                                  ELSE /\ pc' = [pc EXCEPT ![self] = "wd_0_l"]
+                            /\ k' = k
                  /\ UNCHANGED << live, notified, exp, par, kids, wts, disc, 
                                  nww, sem, now, ip, ret, dres, called, dl0, 
                                  lpar, wfor, freeing, uaf, taint4, taint5, 
                                  stack, cn, cp, i, klist, w, tn, p, dn, nt, xn, 
-                                 wn, wp, wdl, fail, fn, fp, fi, fk, an, adl, 
-                                 rt, enq, wq, pn >>
+                                 wn, wp, wdl, fail, fn, fp, fi, fk, objs, adl, 
+                                 single, rt, rdy, enq, wq, pn >>
 
-nw_3_l(self) == /\ pc[self] = "nw_3_l"
-                /\ /\ dn' = [dn EXCEPT ![self] = an[self]]
-                   /\ stack' = [stack EXCEPT ![self] = << [ procedure |->  "ndeadline",
-                                                            pc        |->  "nw_4_l",
-                                                            nt        |->  nt[self],
-                                                            dn        |->  dn[self] ] >>
-                                                        \o stack[self]]
-                /\ nt' = [nt EXCEPT ![self] = 0]
-                /\ pc' = [pc EXCEPT ![self] = "nd_1_ld"]
+wl_0_l(self) == /\ pc[self] = "wl_0_l"
+                /\ k' = [k EXCEPT ![self] = 1]
+                /\ rt' = [rt EXCEPT ![self] = adl[self]]
+                /\ pc' = [pc EXCEPT ![self] = "wl_1_l"]
+                /\ UNCHANGED << live, notified, exp, par, kids, wts, disc, lk, 
+                                nww, sem, now, ip, ret, dres, called, dl0, 
+                                lpar, wfor, freeing, uaf, taint4, taint5, 
+                                stack, cn, cp, i, klist, w, tn, p, dn, nt, xn, 
+                                wn, wp, wdl, fail, fn, fp, fi, fk, objs, adl, 
+                                single, cnt, rdy, enq, wq, pn >>
+
+wl_1_l(self) == /\ pc[self] = "wl_1_l"
+                /\ IF k[self] > Len(objs[self])
+                      THEN /\ pc' = [pc EXCEPT ![self] = "wl_3_l"]
+                           /\ UNCHANGED << stack, dn, nt >>
+                      ELSE /\ /\ dn' = [dn EXCEPT ![self] = objs[self][k[self]]]
+                              /\ stack' = [stack EXCEPT ![self] = << [ procedure |->  "ndeadline",
+                                                                       pc        |->  "wl_2_l",
+                                                                       nt        |->  nt[self],
+                                                                       dn        |->  dn[self] ] >>
+                                                                   \o stack[self]]
+                           /\ nt' = [nt EXCEPT ![self] = 0]
+                           /\ pc' = [pc EXCEPT ![self] = "nd_1_ld"]
                 /\ UNCHANGED << live, notified, exp, par, kids, wts, disc, lk, 
                                 nww, sem, now, ip, ret, dres, called, dl0, 
                                 lpar, wfor, freeing, uaf, taint4, taint5, cn, 
                                 cp, i, klist, w, tn, p, xn, wn, wp, wdl, fail, 
-                                fn, fp, fi, fk, an, adl, rt, enq, wq, pn >>
+                                fn, fp, fi, fk, objs, adl, single, k, rt, cnt, 
+                                rdy, enq, wq, pn >>
 
-nw_4_l(self) == /\ pc[self] = "nw_4_l"
-                /\ rt' = [rt EXCEPT ![self] = Min2(dres[self], adl[self])]
-                /\ IF dres[self] = ZERO
-                      THEN /\ pc' = [pc EXCEPT ![self] = "nq_1_l"]
+wl_2_l(self) == /\ pc[self] = "wl_2_l"
+                /\ rt' = [rt EXCEPT ![self] = Min2(rt[self], dres[self])]
+                /\ k' = [k EXCEPT ![self] = k[self] + 1]
+                /\ pc' = [pc EXCEPT ![self] = "wl_1_l"]
+                /\ UNCHANGED << live, notified, exp, par, kids, wts, disc, lk, 
+                                nww, sem, now, ip, ret, dres, called, dl0, 
+                                lpar, wfor, freeing, uaf, taint4, taint5, 
+                                stack, cn, cp, i, klist, w, tn, p, dn, nt, xn, 
+                                wn, wp, wdl, fail, fn, fp, fi, fk, objs, adl, 
+                                single, cnt, rdy, enq, wq, pn >>
+
+wl_3_l(self) == /\ pc[self] = "wl_3_l"
+                /\ IF rt[self] = ZERO
+                      THEN /\ pc' = [pc EXCEPT ![self] = "wd_0_l"]
                       ELSE /\ pc' = [pc EXCEPT ![self] = "wn_7_pd"]
                 /\ UNCHANGED << live, notified, exp, par, kids, wts, disc, lk, 
                                 nww, sem, now, ip, ret, dres, called, dl0, 
                                 lpar, wfor, freeing, uaf, taint4, taint5, 
                                 stack, cn, cp, i, klist, w, tn, p, dn, nt, xn, 
-                                wn, wp, wdl, fail, fn, fp, fi, fk, an, adl, 
-                                enq, wq, pn >>
+                                wn, wp, wdl, fail, fn, fp, fi, fk, objs, adl, 
+                                single, k, rt, cnt, rdy, enq, wq, pn >>
 
 wn_7_pd(self) == /\ pc[self] = "wn_7_pd"
                  /\ sem[self] > 0 \/ (rt[self] < NONE /\ now >= rt[self])
                  /\ IF sem[self] > 0
                        THEN /\ sem' = [sem EXCEPT ![self] = sem[self] - 1]
-                            /\ pc' = [pc EXCEPT ![self] = "nw_3_l"]
-                       ELSE /\ pc' = [pc EXCEPT ![self] = "nq_1_l"]
+                            /\ pc' = [pc EXCEPT ![self] = "wl_0_l"]
+                       ELSE /\ pc' = [pc EXCEPT ![self] = "wd_0_l"]
                             /\ sem' = sem
                  /\ UNCHANGED << live, notified, exp, par, kids, wts, disc, lk, 
                                  nww, now, ip, ret, dres, called, dl0, lpar, 
                                  wfor, freeing, uaf, taint4, taint5, stack, cn, 
                                  cp, i, klist, w, tn, p, dn, nt, xn, wn, wp, 
-                                 wdl, fail, fn, fp, fi, fk, an, adl, rt, enq, 
-                                 wq, pn >>
+                                 wdl, fail, fn, fp, fi, fk, objs, adl, single, 
+                                 k, rt, cnt, rdy, enq, wq, pn >>
 
-nq_1_l(self) == /\ pc[self] = "nq_1_l"
-                /\ /\ dn' = [dn EXCEPT ![self] = an[self]]
-                   /\ stack' = [stack EXCEPT ![self] = << [ procedure |->  "ndeadline",
-                                                            pc        |->  "nq_2_lk",
-                                                            nt        |->  nt[self],
-                                                            dn        |->  dn[self] ] >>
-                                                        \o stack[self]]
-                /\ nt' = [nt EXCEPT ![self] = 0]
-                /\ pc' = [pc EXCEPT ![self] = "nd_1_ld"]
+wd_0_l(self) == /\ pc[self] = "wd_0_l"
+                /\ k' = [k EXCEPT ![self] = 1]
+                /\ rdy' = [rdy EXCEPT ![self] = 0]
+                /\ pc' = [pc EXCEPT ![self] = "wd_1_l"]
+                /\ UNCHANGED << live, notified, exp, par, kids, wts, disc, lk, 
+                                nww, sem, now, ip, ret, dres, called, dl0, 
+                                lpar, wfor, freeing, uaf, taint4, taint5, 
+                                stack, cn, cp, i, klist, w, tn, p, dn, nt, xn, 
+                                wn, wp, wdl, fail, fn, fp, fi, fk, objs, adl, 
+                                single, rt, cnt, enq, wq, pn >>
+
+wd_1_l(self) == /\ pc[self] = "wd_1_l"
+                /\ IF k[self] > cnt[self]
+                      THEN /\ pc' = [pc EXCEPT ![self] = "wd_9_l"]
+                           /\ UNCHANGED << stack, dn, nt >>
+                      ELSE /\ /\ dn' = [dn EXCEPT ![self] = objs[self][k[self]]]
+                              /\ stack' = [stack EXCEPT ![self] = << [ procedure |->  "ndeadline",
+                                                                       pc        |->  "nq_2_lk",
+                                                                       nt        |->  nt[self],
+                                                                       dn        |->  dn[self] ] >>
+                                                                   \o stack[self]]
+                           /\ nt' = [nt EXCEPT ![self] = 0]
+                           /\ pc' = [pc EXCEPT ![self] = "nd_1_ld"]
                 /\ UNCHANGED << live, notified, exp, par, kids, wts, disc, lk, 
                                 nww, sem, now, ip, ret, dres, called, dl0, 
                                 lpar, wfor, freeing, uaf, taint4, taint5, cn, 
                                 cp, i, klist, w, tn, p, xn, wn, wp, wdl, fail, 
-                                fn, fp, fi, fk, an, adl, rt, enq, wq, pn >>
+                                fn, fp, fi, fk, objs, adl, single, k, rt, cnt, 
+                                rdy, enq, wq, pn >>
 
 nq_2_lk(self) == /\ pc[self] = "nq_2_lk"
-                 /\ lk[an[self]] = 0
-                 /\ lk' = [lk EXCEPT ![an[self]] = self]
-                 /\ uaf' = (uaf \/ Touch(an[self]))
+                 /\ lk[objs[self][k[self]]] = 0
+                 /\ lk' = [lk EXCEPT ![objs[self][k[self]]] = self]
+                 /\ uaf' = (uaf \/ Touch(objs[self][k[self]]))
                  /\ pc' = [pc EXCEPT ![self] = "nq_3_ld"]
                  /\ UNCHANGED << live, notified, exp, par, kids, wts, disc, 
                                  nww, sem, now, ip, ret, dres, called, dl0, 
                                  lpar, wfor, freeing, taint4, taint5, stack, 
                                  cn, cp, i, klist, w, tn, p, dn, nt, xn, wn, 
-                                 wp, wdl, fail, fn, fp, fi, fk, an, adl, rt, 
-                                 enq, wq, pn >>
+                                 wp, wdl, fail, fn, fp, fi, fk, objs, adl, 
+                                 single, k, rt, cnt, rdy, enq, wq, pn >>
 
 nq_3_ld(self) == /\ pc[self] = "nq_3_ld"
-                 /\ wq' = [wq EXCEPT ![self] = NTime(an[self]) > ZERO]
-                 /\ IF NTime(an[self]) > ZERO
-                       THEN /\ wts' = [wts EXCEPT ![an[self]] = Without(wts[an[self]], self)]
+                 /\ wq' = [wq EXCEPT ![self] = NTime(objs[self][k[self]]) > ZERO]
+                 /\ IF NTime(objs[self][k[self]]) > ZERO
+                       THEN /\ wts' = [wts EXCEPT ![objs[self][k[self]]] = Without(wts[objs[self][k[self]]], self)]
                        ELSE /\ TRUE
                             /\ wts' = wts
                  /\ pc' = [pc EXCEPT ![self] = "nq_3_l"]
@@ -1241,8 +1346,8 @@ nq_3_ld(self) == /\ pc[self] = "nq_3_ld"
                                  sem, now, ip, ret, dres, called, dl0, lpar, 
                                  wfor, freeing, uaf, taint4, taint5, stack, cn, 
                                  cp, i, klist, w, tn, p, dn, nt, xn, wn, wp, 
-                                 wdl, fail, fn, fp, fi, fk, an, adl, rt, enq, 
-                                 pn >>
+                                 wdl, fail, fn, fp, fi, fk, objs, adl, single, 
+                                 k, rt, cnt, rdy, enq, pn >>
 
 nq_3_l(self) == /\ pc[self] = "nq_3_l"
                 /\ IF ~wq[self]
@@ -1252,41 +1357,60 @@ nq_3_l(self) == /\ pc[self] = "nq_3_l"
                                 nww, sem, now, ip, ret, dres, called, dl0, 
                                 lpar, wfor, freeing, uaf, taint4, taint5, 
                                 stack, cn, cp, i, klist, w, tn, p, dn, nt, xn, 
-                                wn, wp, wdl, fail, fn, fp, fi, fk, an, adl, rt, 
-                                enq, wq, pn >>
+                                wn, wp, wdl, fail, fn, fp, fi, fk, objs, adl, 
+                                single, k, rt, cnt, rdy, enq, wq, pn >>
 
 nq_4_st(self) == /\ pc[self] = "nq_4_st"
-                 /\ nww' = [nww EXCEPT ![self] = 0]
+                 /\ nww' = [nww EXCEPT ![self][objs[self][k[self]]] = 0]
                  /\ pc' = [pc EXCEPT ![self] = "nq_5_ul"]
                  /\ UNCHANGED << live, notified, exp, par, kids, wts, disc, lk, 
                                  sem, now, ip, ret, dres, called, dl0, lpar, 
                                  wfor, freeing, uaf, taint4, taint5, stack, cn, 
                                  cp, i, klist, w, tn, p, dn, nt, xn, wn, wp, 
-                                 wdl, fail, fn, fp, fi, fk, an, adl, rt, enq, 
-                                 wq, pn >>
+                                 wdl, fail, fn, fp, fi, fk, objs, adl, single, 
+                                 k, rt, cnt, rdy, enq, wq, pn >>
 
 nq_5_ul(self) == /\ pc[self] = "nq_5_ul"
-                 /\ lk' = [lk EXCEPT ![an[self]] = 0]
-                 /\ ret' = [ret EXCEPT ![self] = IF wq[self] THEN 0 ELSE 1]
-                 /\ pc' = [pc EXCEPT ![self] = Head(stack[self]).pc]
-                 /\ rt' = [rt EXCEPT ![self] = Head(stack[self]).rt]
-                 /\ enq' = [enq EXCEPT ![self] = Head(stack[self]).enq]
-                 /\ wq' = [wq EXCEPT ![self] = Head(stack[self]).wq]
-                 /\ an' = [an EXCEPT ![self] = Head(stack[self]).an]
-                 /\ adl' = [adl EXCEPT ![self] = Head(stack[self]).adl]
-                 /\ stack' = [stack EXCEPT ![self] = Tail(stack[self])]
+                 /\ lk' = [lk EXCEPT ![objs[self][k[self]]] = 0]
+                 /\ IF ~wq[self] /\ rdy[self] = 0
+                       THEN /\ rdy' = [rdy EXCEPT ![self] = k[self]]
+                       ELSE /\ TRUE
+                            /\ rdy' = rdy
+                 /\ k' = [k EXCEPT ![self] = k[self] + 1]
+                 /\ pc' = [pc EXCEPT ![self] = "wd_1_l"]
                  /\ UNCHANGED << live, notified, exp, par, kids, wts, disc, 
-                                 nww, sem, now, ip, dres, called, dl0, lpar, 
-                                 wfor, freeing, uaf, taint4, taint5, cn, cp, i, 
-                                 klist, w, tn, p, dn, nt, xn, wn, wp, wdl, 
-                                 fail, fn, fp, fi, fk, pn >>
+                                 nww, sem, now, ip, ret, dres, called, dl0, 
+                                 lpar, wfor, freeing, uaf, taint4, taint5, 
+                                 stack, cn, cp, i, klist, w, tn, p, dn, nt, xn, 
+                                 wn, wp, wdl, fail, fn, fp, fi, fk, objs, adl, 
+                                 single, rt, cnt, enq, wq, pn >>
 
-nwait(self) == nw_1_l(self) \/ nw_2_l(self) \/ wn_1_st(self)
-                  \/ ne_1_lk(self) \/ ne_2_ld(self) \/ ne_3_st(self)
-                  \/ ne_4_ul(self) \/ nw_3_l(self) \/ nw_4_l(self)
-                  \/ wn_7_pd(self) \/ nq_1_l(self) \/ nq_2_lk(self)
-                  \/ nq_3_ld(self) \/ nq_3_l(self) \/ nq_4_st(self)
-                  \/ nq_5_ul(self)
+wd_9_l(self) == /\ pc[self] = "wd_9_l"
+                /\ ret' = [ret EXCEPT ![self] = IF single[self] THEN (IF rdy[self] = 0 THEN 0 ELSE 1) ELSE (IF rdy[self] = 0 THEN Len(objs[self]) ELSE rdy[self] - 1)]
+                /\ pc' = [pc EXCEPT ![self] = Head(stack[self]).pc]
+                /\ k' = [k EXCEPT ![self] = Head(stack[self]).k]
+                /\ rt' = [rt EXCEPT ![self] = Head(stack[self]).rt]
+                /\ cnt' = [cnt EXCEPT ![self] = Head(stack[self]).cnt]
+                /\ rdy' = [rdy EXCEPT ![self] = Head(stack[self]).rdy]
+                /\ enq' = [enq EXCEPT ![self] = Head(stack[self]).enq]
+                /\ wq' = [wq EXCEPT ![self] = Head(stack[self]).wq]
+                /\ objs' = [objs EXCEPT ![self] = Head(stack[self]).objs]
+                /\ adl' = [adl EXCEPT ![self] = Head(stack[self]).adl]
+                /\ single' = [single EXCEPT ![self] = Head(stack[self]).single]
+                /\ stack' = [stack EXCEPT ![self] = Tail(stack[self])]
+                /\ UNCHANGED << live, notified, exp, par, kids, wts, disc, lk, 
+                                nww, sem, now, ip, dres, called, dl0, lpar, 
+                                wfor, freeing, uaf, taint4, taint5, cn, cp, i, 
+                                klist, w, tn, p, dn, nt, xn, wn, wp, wdl, fail, 
+                                fn, fp, fi, fk, pn >>
+
+nwaitn(self) == ws_1_l(self) \/ ws_2_l(self) \/ we_1_l(self)
+                   \/ wn_1_st(self) \/ ne_1_lk(self) \/ ne_2_ld(self)
+                   \/ ne_3_st(self) \/ ne_4_ul(self) \/ wl_0_l(self)
+                   \/ wl_1_l(self) \/ wl_2_l(self) \/ wl_3_l(self)
+                   \/ wn_7_pd(self) \/ wd_0_l(self) \/ wd_1_l(self)
+                   \/ nq_2_lk(self) \/ nq_3_ld(self) \/ nq_3_l(self)
+                   \/ nq_4_st(self) \/ nq_5_ul(self) \/ wd_9_l(self)
 
 np_0_l(self) == /\ pc[self] = "np_0_l"
                 /\ /\ dn' = [dn EXCEPT ![self] = pn[self]]
@@ -1301,7 +1425,8 @@ np_0_l(self) == /\ pc[self] = "np_0_l"
                                 nww, sem, now, ip, ret, dres, called, dl0, 
                                 lpar, wfor, freeing, uaf, taint4, taint5, cn, 
                                 cp, i, klist, w, tn, p, xn, wn, wp, wdl, fail, 
-                                fn, fp, fi, fk, an, adl, rt, enq, wq, pn >>
+                                fn, fp, fi, fk, objs, adl, single, k, rt, cnt, 
+                                rdy, enq, wq, pn >>
 
 np_1_l(self) == /\ pc[self] = "np_1_l"
                 /\ ret' = [ret EXCEPT ![self] = IF dres[self] = ZERO THEN 1 ELSE 0]
@@ -1312,7 +1437,8 @@ np_1_l(self) == /\ pc[self] = "np_1_l"
                                 nww, sem, now, ip, dres, called, dl0, lpar, 
                                 wfor, freeing, uaf, taint4, taint5, cn, cp, i, 
                                 klist, w, tn, p, dn, nt, xn, wn, wp, wdl, fail, 
-                                fn, fp, fi, fk, an, adl, rt, enq, wq >>
+                                fn, fp, fi, fk, objs, adl, single, k, rt, cnt, 
+                                rdy, enq, wq >>
 
 npoll(self) == np_0_l(self) \/ np_1_l(self)
 
@@ -1327,8 +1453,8 @@ c0(self) == /\ pc[self] = "c0"
                                      /\ xn' = [xn EXCEPT ![self] = CurOp(self).a]
                                   /\ pc' = [pc EXCEPT ![self] = "nx_0_l"]
                                   /\ UNCHANGED << wn, wp, wdl, fail, fn, fp, 
-                                                  fi, fk, an, adl, rt, enq, wq, 
-                                                  pn >>
+                                                  fi, fk, objs, adl, single, k, 
+                                                  rt, cnt, rdy, enq, wq, pn >>
                              ELSE /\ IF CurOp(self).op = "poll"
                                         THEN /\ ip' = [ip EXCEPT ![self] = ip[self] + 1]
                                              /\ /\ pn' = [pn EXCEPT ![self] = CurOp(self).a]
@@ -1339,8 +1465,9 @@ c0(self) == /\ pc[self] = "c0"
                                              /\ pc' = [pc EXCEPT ![self] = "np_0_l"]
                                              /\ UNCHANGED << wn, wp, wdl, fail, 
                                                              fn, fp, fi, fk, 
-                                                             an, adl, rt, enq, 
-                                                             wq >>
+                                                             objs, adl, single, 
+                                                             k, rt, cnt, rdy, 
+                                                             enq, wq >>
                                         ELSE /\ IF CurOp(self).op = "new"
                                                    THEN /\ ip' = [ip EXCEPT ![self] = ip[self] + 1]
                                                         /\ /\ fail' = [fail EXCEPT ![self] = CurOp(self).x = 1]
@@ -1357,9 +1484,12 @@ c0(self) == /\ pc[self] = "c0"
                                                         /\ pc' = [pc EXCEPT ![self] = "nn_0_l"]
                                                         /\ UNCHANGED << fn, fp, 
                                                                         fi, fk, 
-                                                                        an, 
+                                                                        objs, 
                                                                         adl, 
-                                                                        rt, 
+                                                                        single, 
+                                                                        k, rt, 
+                                                                        cnt, 
+                                                                        rdy, 
                                                                         enq, 
                                                                         wq >>
                                                    ELSE /\ IF CurOp(self).op = "free"
@@ -1376,35 +1506,75 @@ c0(self) == /\ pc[self] = "c0"
                                                                    /\ fi' = [fi EXCEPT ![self] = 1]
                                                                    /\ fk' = [fk EXCEPT ![self] = <<>>]
                                                                    /\ pc' = [pc EXCEPT ![self] = "nf_1_lk"]
-                                                                   /\ UNCHANGED << an, 
+                                                                   /\ UNCHANGED << objs, 
                                                                                    adl, 
+                                                                                   single, 
+                                                                                   k, 
                                                                                    rt, 
+                                                                                   cnt, 
+                                                                                   rdy, 
                                                                                    enq, 
                                                                                    wq >>
                                                               ELSE /\ IF CurOp(self).op = "wait"
                                                                          THEN /\ ip' = [ip EXCEPT ![self] = ip[self] + 1]
                                                                               /\ /\ adl' = [adl EXCEPT ![self] = CurOp(self).dl]
-                                                                                 /\ an' = [an EXCEPT ![self] = CurOp(self).a]
-                                                                                 /\ stack' = [stack EXCEPT ![self] = << [ procedure |->  "nwait",
+                                                                                 /\ objs' = [objs EXCEPT ![self] = <<CurOp(self).a>>]
+                                                                                 /\ single' = [single EXCEPT ![self] = TRUE]
+                                                                                 /\ stack' = [stack EXCEPT ![self] = << [ procedure |->  "nwaitn",
                                                                                                                           pc        |->  "c0",
+                                                                                                                          k         |->  k[self],
                                                                                                                           rt        |->  rt[self],
+                                                                                                                          cnt       |->  cnt[self],
+                                                                                                                          rdy       |->  rdy[self],
                                                                                                                           enq       |->  enq[self],
                                                                                                                           wq        |->  wq[self],
-                                                                                                                          an        |->  an[self],
-                                                                                                                          adl       |->  adl[self] ] >>
+                                                                                                                          objs      |->  objs[self],
+                                                                                                                          adl       |->  adl[self],
+                                                                                                                          single    |->  single[self] ] >>
                                                                                                                       \o stack[self]]
+                                                                              /\ k' = [k EXCEPT ![self] = 1]
                                                                               /\ rt' = [rt EXCEPT ![self] = 0]
+                                                                              /\ cnt' = [cnt EXCEPT ![self] = 0]
+                                                                              /\ rdy' = [rdy EXCEPT ![self] = 0]
                                                                               /\ enq' = [enq EXCEPT ![self] = FALSE]
                                                                               /\ wq' = [wq EXCEPT ![self] = FALSE]
-                                                                              /\ pc' = [pc EXCEPT ![self] = "nw_1_l"]
-                                                                         ELSE /\ ip' = [ip EXCEPT ![self] = ip[self] + 1]
-                                                                              /\ pc' = [pc EXCEPT ![self] = "c0"]
-                                                                              /\ UNCHANGED << stack, 
-                                                                                              an, 
-                                                                                              adl, 
-                                                                                              rt, 
-                                                                                              enq, 
-                                                                                              wq >>
+                                                                              /\ pc' = [pc EXCEPT ![self] = "ws_1_l"]
+                                                                         ELSE /\ IF CurOp(self).op = "waitn"
+                                                                                    THEN /\ ip' = [ip EXCEPT ![self] = ip[self] + 1]
+                                                                                         /\ /\ adl' = [adl EXCEPT ![self] = CurOp(self).dl]
+                                                                                            /\ objs' = [objs EXCEPT ![self] = CurOp(self).objs]
+                                                                                            /\ single' = [single EXCEPT ![self] = FALSE]
+                                                                                            /\ stack' = [stack EXCEPT ![self] = << [ procedure |->  "nwaitn",
+                                                                                                                                     pc        |->  "c0",
+                                                                                                                                     k         |->  k[self],
+                                                                                                                                     rt        |->  rt[self],
+                                                                                                                                     cnt       |->  cnt[self],
+                                                                                                                                     rdy       |->  rdy[self],
+                                                                                                                                     enq       |->  enq[self],
+                                                                                                                                     wq        |->  wq[self],
+                                                                                                                                     objs      |->  objs[self],
+                                                                                                                                     adl       |->  adl[self],
+                                                                                                                                     single    |->  single[self] ] >>
+                                                                                                                                 \o stack[self]]
+                                                                                         /\ k' = [k EXCEPT ![self] = 1]
+                                                                                         /\ rt' = [rt EXCEPT ![self] = 0]
+                                                                                         /\ cnt' = [cnt EXCEPT ![self] = 0]
+                                                                                         /\ rdy' = [rdy EXCEPT ![self] = 0]
+                                                                                         /\ enq' = [enq EXCEPT ![self] = FALSE]
+                                                                                         /\ wq' = [wq EXCEPT ![self] = FALSE]
+                                                                                         /\ pc' = [pc EXCEPT ![self] = "ws_1_l"]
+                                                                                    ELSE /\ ip' = [ip EXCEPT ![self] = ip[self] + 1]
+                                                                                         /\ pc' = [pc EXCEPT ![self] = "c0"]
+                                                                                         /\ UNCHANGED << stack, 
+                                                                                                         objs, 
+                                                                                                         adl, 
+                                                                                                         single, 
+                                                                                                         k, 
+                                                                                                         rt, 
+                                                                                                         cnt, 
+                                                                                                         rdy, 
+                                                                                                         enq, 
+                                                                                                         wq >>
                                                                    /\ UNCHANGED << fn, 
                                                                                    fp, 
                                                                                    fi, 
@@ -1416,7 +1586,8 @@ c0(self) == /\ pc[self] = "c0"
                                   /\ xn' = xn
                   ELSE /\ pc' = [pc EXCEPT ![self] = "Done"]
                        /\ UNCHANGED << ip, stack, xn, wn, wp, wdl, fail, fn, 
-                                       fp, fi, fk, an, adl, rt, enq, wq, pn >>
+                                       fp, fi, fk, objs, adl, single, k, rt, 
+                                       cnt, rdy, enq, wq, pn >>
             /\ UNCHANGED << live, notified, exp, par, kids, wts, disc, lk, nww, 
                             sem, now, ret, dres, called, dl0, lpar, wfor, 
                             freeing, uaf, taint4, taint5, cn, cp, i, klist, w, 
@@ -1430,7 +1601,7 @@ Terminating == /\ \A self \in ProcSet: pc[self] = "Done"
 
 Next == (\E self \in ProcSet:  \/ notify_child(self) \/ notify(self)
                                \/ ndeadline(self) \/ nnotify(self)
-                               \/ nnew(self) \/ nfree(self) \/ nwait(self)
+                               \/ nnew(self) \/ nfree(self) \/ nwaitn(self)
                                \/ npoll(self))
            \/ (\E self \in Threads: thr(self))
            \/ Terminating
@@ -1441,14 +1612,14 @@ Termination == <>(\A self \in ProcSet: pc[self] = "Done")
 
 \* END TRANSLATION
 
-LocalLabels == {"nc_5_l", "nc_9_l", "nc_k_l", "nc_w_l", "nd_5_l", "nf_10_l", "nf_12_l", "nf_1_l", "nf_5_l", "nf_6_l", "nf_k_l", "nn_0_l", "nn_1_l", "nn_2_l", "np_0_l", "np_1_l", "nq_1_l", "nq_3_l", "nt_2_l", "nt_7_l", "nt_7b_l", "nt_7c_l", "nw_1_l", "nw_2_l", "nw_3_l", "nw_4_l", "nx_0_l", "nx_1_l", "nx_2_l"}
-Step(self) == notify_child(self) \/ notify(self) \/ ndeadline(self) \/ nnotify(self) \/ nnew(self) \/ nfree(self) \/ nwait(self) \/ npoll(self) \/ thr(self)
+LocalLabels == {"nc_5_l", "nc_9_l", "nc_k_l", "nc_w_l", "nd_5_l", "nf_10_l", "nf_12_l", "nf_1_l", "nf_5_l", "nf_6_l", "nf_k_l", "nn_0_l", "nn_1_l", "nn_2_l", "np_0_l", "np_1_l", "nq_3_l", "nt_2_l", "nt_7_l", "nt_7b_l", "nt_7c_l", "nx_0_l", "nx_1_l", "nx_2_l", "wd_0_l", "wd_1_l", "wd_9_l", "we_1_l", "wl_0_l", "wl_1_l", "wl_2_l", "wl_3_l", "ws_1_l", "ws_2_l"}
+Step(self) == notify_child(self) \/ notify(self) \/ ndeadline(self) \/ nnotify(self) \/ nnew(self) \/ nfree(self) \/ nwaitn(self) \/ npoll(self) \/ thr(self)
 \* the clock matters to a sleeper with a deadline still ahead, and to notes whose own expiry is ahead (lazy expiry at the next poll)
 TickUseful == \/ \E u \in Threads : pc[u] = "wn_7_pd" /\ rt[u] < NONE /\ rt[u] > now
               \/ \E n \in Notes : live[n] = "live" /\ notified[n] = 0 /\ exp[n] < NONE /\ exp[n] > now
 Tick == /\ now < MaxNow /\ TickUseful
         /\ now' = now + 1
-        /\ UNCHANGED <<pc, live, notified, exp, par, kids, wts, disc, lk, nww, sem, ip, ret, dres, called, dl0, lpar, wfor, freeing, uaf, taint4, taint5, stack, cn, cp, i, klist, w, tn, p, dn, nt, xn, wn, wp, wdl, fail, fn, fp, fi, fk, an, adl, rt, enq, wq, pn>>
+        /\ UNCHANGED <<pc, live, notified, exp, par, kids, wts, disc, lk, nww, sem, ip, ret, dres, called, dl0, lpar, wfor, freeing, uaf, taint4, taint5, stack, cn, cp, i, klist, w, tn, p, dn, nt, xn, wn, wp, wdl, fail, fn, fp, fi, fk, objs, adl, single, k, rt, cnt, rdy, enq, wq, pn>>
 LocalPending == {u \in Threads : pc[u] \in LocalLabels}
 NextU == IF LocalPending # {} THEN Step(CHOOSE u \in LocalPending : TRUE)
          ELSE (\E self \in Threads : Step(self)) \/ Tick
@@ -1457,7 +1628,7 @@ SpecU == Init /\ [][NextU]_vars
 AllDone == \A u \in Threads : pc[u] = "Done"
 \* ---- C08 ----
 RECURSIVE LAnc(_, _)
-LAnc(n, k) == IF n = 0 \/ k = 0 THEN {} ELSE {n} \cup LAnc(lpar[n], k - 1)      \* n and its logical ancestors
+LAnc(n, d) == IF n = 0 \/ d = 0 THEN {} ELSE {n} \cup LAnc(lpar[n], d - 1)      \* n and its logical ancestors
 Cause(n) == \E a \in LAnc(n, NN) : called[a] \/ (dl0[a] < NONE /\ dl0[a] <= now)
 NotifiedHasCause == \A n \in Notes : (live[n] \in {"live", "new"} /\ notified[n] # 0) => Cause(n)
 InNotify(u) == \/ pc[u] \in {"nc_1_ld", "nc_2_st", "nc_w_l", "nc_3_st", "nc_4_v", "nc_k_l", "nc_5_lk", "nc_5_l", "nc_6_ul", "nc_7_r", "nc_8_lk", "nc_9_l",
